@@ -117,6 +117,22 @@ def kind(term, env):
     return (r, b)
 
 
+def newline_tests(conds):
+    """[(tested term, is_newline)] for `x == '\\n'`, `'\\n' == x`, `matches!(x, '\\n')` (a switch on the char value)."""
+    out = []
+    for c, o in conds:
+        if c[0] == "binop" and c[1] in ("Eq", "Ne") and isinstance(o, bool):
+            for a, b in ((c[2], c[3]), (c[3], c[2])):
+                if b == ("const", repr("\n")):
+                    out.append((a, o if c[1] == "Eq" else (not o)))
+        elif c[0] not in ("binop", "app", "discr", "isvar", "not", "cmp") and not isinstance(o, bool):
+            if o == 10:
+                out.append((c, True))
+            elif isinstance(o, tuple) and o[0] == "otherwise" and o[1] == (10,):
+                out.append((c, False))
+    return out
+
+
 def is_self_field(v, field):
     return v == ("field", ("sym", "self"), field)
 
@@ -578,15 +594,14 @@ def analyze(ctx, want):
         own = all(S.vstr(e[3]).lstrip("&") in ("self.char_indices",) for e in nx)
         ob("C09.c", "advance_to:consumes-own-cursor", own and len(nx) == 1, "cursor.next() on %s" % [e[2] for e in nx], at.loc())
         items = [c for c, o in p.conds]
-        nl = [(c, o) for c, o in p.conds if c[0] == "binop" and c[1] == "Eq" and "'\\n'" in S.vstr(c)]
+        nl = newline_tests(p.conds)
         pushes = p.calls(r"Vec::<usize>::push$")
         got_item = any(e[0] == "write" and e[2][0] == "local" and e[4][0] == "field" and e[4][1][0] == "sym" and e[4][1][1].startswith("ci_item@") for e in p.events)
         if not got_item:
             continue  # exhausted on the first next()
         if nl:
-            c, o = nl[0]
-            was_nl = o is True
-            tested = S.vstr(c[2])
+            c, was_nl = nl[0]
+            tested = S.vstr(c)
             ob("C09.c", "advance_to:newline-test-on-previous-char", tested in ("self.last_char",) or "last_char" in tested,
                "newline test on %s" % tested, at.loc())
             if was_nl:
@@ -673,14 +688,14 @@ def analyze(ctx, want):
     rp = ret_paths(paths)
     seen_nl = set()
     for p in rp:
-        nl = [(c, o) for c, o in p.conds if c[0] == "binop" and c[1] == "Eq" and "'\\n'" in S.vstr(c)]
+        nl = newline_tests(p.conds)
         mg = p.calls(r"merge_line_offsets$")
         ws = {field_path(w[1]): w[2] for w in heap_writes(p) if w[0] == ("sym", "self")}
         if not nl:
             ob("C09.c", "record_line_offset:tests-last-char-for-newline", False, "no newline test on a path", rl.loc())
             continue
         c, o = nl[0]
-        ob("C09.c", "record_line_offset:newline-test-on-last_char", S.vstr(c[2]) == "self.last_char" or S.vstr(c[3]) == "self.last_char", "tests %s" % S.vstr(c), rl.loc())
+        ob("C09.c", "record_line_offset:newline-test-on-last_char", S.vstr(c) == "self.last_char", "tests %s" % S.vstr(c), rl.loc())
         seen_nl.add(o)
         if o is True:
             ok = len(mg) == 1 and mg[0][3][1][0] == "vec" and mg[0][3][1][1] == (("sym", "i"),)
@@ -735,10 +750,13 @@ def analyze(ctx, want):
     ex, paths = run_fn(po, F, Model())
     rows = {}
     for p in ret_paths(paths):
-        bs = p.calls(r"binary_search_by")
+        bs = p.calls(r"<impl \[usize\]>::binary_search(_by::|$)")
         if len(bs) != 1:
             ob("C09.f", "position:one-search", False, "%d searches" % len(bs), po.loc())
             continue
+        if not re.search(r"binary_search_by", bs[0][2]):
+            # plain binary_search(&offset): the key must be the queried offset
+            ob("C09.f", "position:searches-for-the-offset", S.fstr(ex.deref_val(p, bs[0][3][1])) == "offset", "binary_search(%s)" % S.fstr(bs[0][3][1]), po.loc())
         b = bs[0]
         v = variant_of(ex, p, b[4])
         ob("C09.f", "position:searches-line_offsets", "self.line_offsets" in S.vstr(b[3][0]), "searches %s" % S.vstr(b[3][0]), po.loc())
@@ -770,7 +788,7 @@ def analyze(ctx, want):
             up = c.upvar_names()
             ok = r[0] == "cmp" and "arg2" in S.vstr(r[1]) and "arg1" in S.vstr(r[2]) and "arg1" not in S.vstr(r[1]) and up.get(0) == "offset"
             ob("C09.f", "position:comparator-orientation", ok, "comparator returns %s (element compared with the offset, in that order)" % S.vstr(r), c.loc())
-    if "C09.f" in want:
+    if "C09.f" in want and any(re.search(r"binary_search_by", M.call_name(t)) for bb, t in po.calls()):
         ctx.floor("C09.f", "comparator closures of position()", len(cl), 1)
 
     # WithPositions::next attaches positions after the match was consumed, from the same iterator
